@@ -32,6 +32,9 @@ META = {
 CTX = "liquid2.context.RenderContext"
 
 
+from checks.shared import check_newline_transparency  # noqa: E402
+
+
 def run(prog: Program, res: Result) -> None:  # noqa: PLR0912, PLR0915
     res.explanation = (
         "Slots are filled from the code: the buffer factories are the functions that construct LimitedStringIO, the "
@@ -181,32 +184,7 @@ def run(prog: Program, res: Result) -> None:  # noqa: PLR0912, PLR0915
 
     # ------------------------------------------------------------------ R2 neutrality
     res.rule("C06.R2", "limit neutrality: LimitedStringIO forwards to StringIO the same newline mode as a plain StringIO() (default '\\n', no universal-newline translation)")
-    init = lim.methods.get("__init__")
-    if init is None:
-        res.ok("C06.R2", f"{lim.file}:{lim.node.lineno} LimitedStringIO", "no __init__ override", "inherits StringIO defaults")
-    else:
-        a = init.node.args
-        defaults = dict(zip([p.arg for p in a.args][len(a.args) - len(a.defaults) :], a.defaults))
-        sc = [c for c in ast.walk(init.node) if isinstance(c, ast.Call) and isinstance(c.func, ast.Attribute) and c.func.attr == "__init__" and norm(c.func.value) == "super()"]
-        what = "super().__init__ receives newline='\\n' by default"
-        ok = False
-        why = "no super().__init__ call"
-        for c in sc:
-            nl = c.args[1] if len(c.args) > 1 else next((k.value for k in c.keywords if k.arg == "newline"), None)
-            if nl is None:
-                ok, why = True, "newline not forwarded: StringIO's own default applies"
-            elif isinstance(nl, ast.Constant):
-                ok, why = nl.value == "\n", f"newline={nl.value!r}"
-            elif isinstance(nl, ast.Name) and nl.id in defaults:
-                dv = defaults[nl.id]
-                ok = isinstance(dv, ast.Constant) and dv.value == "\n"
-                why = f"parameter {nl.id} defaults to {norm(dv)}"
-            else:
-                why = f"newline={norm(nl)}"
-        if ok:
-            res.ok("C06.R2", f"{init.file}:{init.node.lineno} LimitedStringIO.__init__", what, why)
-        else:
-            res.fail("C06.R2", file=init.file, line=init.node.lineno, qualname="LimitedStringIO.__init__", construct=f"newline forwarded to StringIO: {why}", message=f"configuring an output limit changes write semantics: {why} turns on universal-newline translation (CR/CRLF rewritten to LF); StringIO() itself uses newline='\\n'", what=what)
+    check_newline_transparency(prog, res, "C06.R2")
 
     # ------------------------------------------------------------------ R3 loops
     res.rule("C06.R3", "every data-driven loop in a render method whose body renders children runs inside `with context.loop(...)` (limit test + registration on the loop stack)")
